@@ -121,7 +121,7 @@ TEXT = {
     'C15': dict(
         technique='deterministic fault enumeration: case tuples drawn by seed, every throw index of each case executed, in builds for C++11/14/17/20 '
                   '(-O0, -O2, ASan+UBSan), element ledger and red-zoned raw memory as oracle',
-        text='Each case (algorithm x length 0-6 x source iterator category x value category) is executed fault-free and then once per throw index '
+        text='Each case (algorithm x length 0-6 x iterator kind incl. single-pass streams, reverse and strided (non-contiguous) random access and non-pointer destinations x value category incl. types with a trivial constructor but user-provided assignment or move, an initializer_list constructor, converting source->destination types and bytes->bool) is executed fault-free and then once per throw index '
              'until no fault fires, against expectations taken from the C++17/20 standard algorithms (returned iterators and pairs, constructed '
              'values, source state after copy / move / relocate, clean-up on throw, nothing else touched), in twelve builds so that every #ifdef '
              'branch of memory.hpp is instantiated; a missing return shows as a wrong value, a UBSan report, a crash or a hang of the case.',
@@ -131,7 +131,7 @@ TEXT = {
     'C16': dict(
         technique='deterministic simulation replayed in differing builds: identical seeds executed in {c++11,14,17,20} x {extras} x {NDEBUG} x {-O0,-O2} '
                   'builds, transcript (event-log) equality between builds + per-build reference model',
-        text='A portable profile (9 vector, 3 FlatSet and, from C++17, 2 SmallSet configurations; standard operations, plus the extras where built) '
+        text='A portable profile (13 vector, 3 FlatSet and, from C++17, 2 SmallSet configurations incl. an over-aligned element; standard operations, plus the extras where built; about one vector operation in eight carries an injected element fault) '
              'executes the same seeds in every build of the matrix; the per-step transcripts (operation, arguments, results, exceptions, size, capacity, contents) '
              'must be byte-identical between builds, each build also checks its own std::vector/std::set '
              'model, SFINAE probes check that the extras are absent at compile time when disabled, and a matrix configuration that no longer '
@@ -140,20 +140,20 @@ TEXT = {
         ref='4/C16'),
     'C18': dict(
         technique=SIM + 'allocator-seam call counter and relocation counter around n single appends, with realloc moving or extending by seed',
-        text='Start states from short histories, then n single push_back/emplace_back (n up to 1200 quick, 5000 thorough, up to the size_type limit '
-             'for 8-bit types), allocators with and without reallocate: reallocations <= 2*ceil(log2 n)+4, relocations linear, reserve(n) with one '
+        text='Start states from short histories, then n single appends through every single-element growth operation (n up to 1200 quick, 5000 thorough, 3.6 million on 2- and 4-byte elements, up to the size_type limit '
+             'for 8-bit types), allocators with and without reallocate: reallocations <= 2*ceil(log2 n)+4, relocations linear, every growth step (also of bulk operations inside ordinary histories) by at least the factor 1.5 unless the size_type limits it, reserve(n) with one '
              'request, shrink_to_fit reaching size() or the inline N.',
         note='The reallocation count is a function of start state and n; the simulator owns the seam where it is counted and the move-vs-extend decision. No fault is injected.',
         ref='4/C18'),
     'C20': dict(
         technique='deterministic simulation of thread schedules: real threads released one operation at a time by a seeded scheduler whose hand-offs '
                   'are hidden from ThreadSanitizer\'s happens-before tracking; TSan reports attributed by racing address',
-        text='2-6 reader threads call const operations (size, iteration, element access, find/contains/bounds, comparisons, copy-construction) on '
-             'one shared container of every flavour and state while 0-3 writer threads mutate their own containers; one seed is one interleaving; '
+        text='2-6 reader threads call const operations (size, iteration, element access incl. the failing path of at(), find/contains/bounds also with heterogeneous keys, comparisons against private containers in the same or another internal state, copy and range construction) on '
+             'one shared container (29 kinds: every flavour and state, 64..600 element sets, a >= 128 KiB buffer) while 0-3 writer threads mutate two containers of their own with a wide operation set; one seed is one interleaving; '
              'ThreadSanitizer judges the operations as concurrent because the scheduler synchronisation is annotated away; a report whose address '
              'lies in the footprint of the shared container (or in an amc:: frame) is a violation; the bytes of the shared container must also be '
              'identical before and after the reader phase.',
-        note='Samples schedules at operation granularity (amc has no atomics); a report elsewhere is treated as a harness fault (exit 2).',
+        note='Samples schedules at operation granularity (amc has no atomics); every ThreadSanitizer report counts (the harness\'s own shared accesses are inside ignore regions).',
         ref='4/C20'),
 }
 
